@@ -18,7 +18,7 @@ use serde_json::json;
 pub static DEF: PropDef = PropDef {
     id: "C08",
     level: "exploration",
-    total: |t| t.pick(192, 32000),
+    total: |t| t.pick(192, 9600),
     run,
     rule: "per codec (IPv4, UDP, TCP, ARP, DNS, DHCP, BytesExt): (a) generated field values (boundary-biased full ranges: all 64 TCP flag sets, DF/MF x offsets 0..8191, TOS, TTL, protocol, ids, addresses, 48-bit MACs, DHCP types 1..7, strings without terminator, DNS names without delimiter, payloads 0..65507) are encoded, decoded and compared field by field; (b) byte strings obtained by mutating valid encodings (bit flips, truncation, field extremes) that the decoder accepts are re-encoded and compared with the consumed prefix; (c) IPv4/UDP/TCP encodings are compared byte for byte with etherparse 0.10 and with a hand-written packer, and the decoders are fed the reference bytes. In the default build the checksum fields are zero by the stack's convention and are zeroed in the reference bytes (C18 judges them in the compute_checksum build). Non-trivial = distinct (codec, field-class tuple).",
     assumptions: &[
